@@ -40,13 +40,15 @@ pub enum Alt {
     Truncate(u64),
     Byte(u64),
     Bit(u64, u8),
+    /// a range overwritten with zeros (a lost write: whole block, part of a block, a few bytes)
+    Zero(u64, u64),
 }
 
 impl Alt {
     fn pos(&self) -> u64 {
         match self {
             Alt::Truncate(t) => *t,
-            Alt::Byte(p) | Alt::Bit(p, _) => *p,
+            Alt::Byte(p) | Alt::Bit(p, _) | Alt::Zero(p, _) => *p,
         }
     }
     fn to_json(self) -> J {
@@ -54,6 +56,7 @@ impl Alt {
             Alt::Truncate(t) => json!({"kind": "truncate", "at": t}),
             Alt::Byte(p) => json!({"kind": "byte", "at": p}),
             Alt::Bit(p, b) => json!({"kind": "bit", "at": p, "bit": b}),
+            Alt::Zero(p, n) => json!({"kind": "zero", "at": p, "len": n}),
         }
     }
     fn from_json(j: &J) -> Alt {
@@ -61,6 +64,7 @@ impl Alt {
         match j["kind"].as_str() {
             Some("truncate") => Alt::Truncate(at),
             Some("bit") => Alt::Bit(at, j["bit"].as_u64().unwrap_or(0) as u8),
+            Some("zero") => Alt::Zero(at, j["len"].as_u64().unwrap_or(0)),
             _ => Alt::Byte(at),
         }
     }
@@ -69,6 +73,10 @@ impl Alt {
             Alt::Truncate(t) => bytes.truncate(*t as usize),
             Alt::Byte(p) => bytes[*p as usize] ^= 0xff,
             Alt::Bit(p, b) => bytes[*p as usize] ^= 1 << b,
+            Alt::Zero(p, n) => {
+                let end = ((*p + *n) as usize).min(bytes.len());
+                bytes[(*p as usize).min(end)..end].iter_mut().for_each(|b| *b = 0);
+            }
         }
     }
 }
@@ -240,6 +248,13 @@ fn pos_class(alt: &Alt, ends: &[u64], file_len: u64) -> String {
         Alt::Truncate(_) => "trunc",
         Alt::Byte(_) => "byte",
         Alt::Bit(..) => "bit",
+        Alt::Zero(_, n) => {
+            if *n >= BLOCK {
+                "zero_block"
+            } else {
+                "zero_range"
+            }
+        }
     };
     // offset inside the physical record that contains p (first fragment header = bytes 0..6)
     let rec_start = ends.iter().rev().find(|e| **e <= p).copied().unwrap_or(0);
@@ -296,6 +311,28 @@ fn alterations(c: &Case, ends: &[u64], file_len: u64, r: &mut Rng, sample: usize
     for _ in 0..sample {
         pos.insert(r.below(file_len.max(1)));
     }
+    // zeroed ranges: every whole block, the halves of every block, a few bytes around every
+    // block and record boundary, and random ranges
+    let mut b = 0;
+    while b < file_len {
+        v.push(Alt::Zero(b, BLOCK));
+        v.push(Alt::Zero(b, BLOCK / 2));
+        v.push(Alt::Zero(b + BLOCK / 2, BLOCK / 2));
+        v.push(Alt::Zero(b, HEADER));
+        if b >= 40 {
+            v.push(Alt::Zero(b - 40, 80));
+        }
+        b += BLOCK;
+    }
+    for e in ends {
+        v.push(Alt::Zero(*e, HEADER));
+        v.push(Alt::Zero(e.saturating_sub(3), 10));
+    }
+    for _ in 0..sample / 4 {
+        let p = r.below(file_len.max(1));
+        v.push(Alt::Zero(p, *r.pick(&[1u64, 7, 64, 300, 5000])));
+    }
+    v.retain(|a| a.pos() < file_len);
     for p in pos {
         if p <= file_len {
             v.push(Alt::Truncate(p));
